@@ -87,6 +87,9 @@ func (fr *frame) get(key ssa.Value) value {
 		if r, ok := fr.i.globals[key]; ok {
 			return r
 		}
+		cell := zero(mustDeref(key.Type()))
+		fr.i.globals[key] = &cell
+		return &cell
 	}
 	if r, ok := fr.env[key]; ok {
 		return r
